@@ -359,7 +359,25 @@ func safeRun[C any](p Property[C], c C, ev *Evid) (fs []Finding) {
 			fs = append(fs, Finding{Property: p.ID, Key: "harness-panic", Detail: fmt.Sprintf("panic outside guarded call: %v\n%s", r, debug.Stack())})
 		}
 	}()
+	caseSaltValue, caseSaltSet = 0, false
+	caseSaltFn = func() uint64 { return HashJSON(c) }
 	return p.Run(c, ev)
+}
+
+// caseSalt is a number that is a pure function of the running case (computed on first use): harness-side
+// variations that are not part of the case description (spelling of a base directory, ...) are chosen from
+// it, so a replay makes the same choices.
+var (
+	caseSaltFn    func() uint64
+	caseSaltValue uint64
+	caseSaltSet   bool
+)
+
+func caseSalt() uint64 {
+	if !caseSaltSet && caseSaltFn != nil {
+		caseSaltValue, caseSaltSet = caseSaltFn(), true
+	}
+	return caseSaltValue
 }
 
 func saveReplay[C any](id string, c C, fs []Finding) string {
